@@ -204,6 +204,89 @@ fn adversarial(rep: &mut Report, tier: &Tier) {
     }
 }
 
+/// (7) a relayed block whose economic header fields were altered on the way. The 26 numeric
+/// fields after the creator's signature (treasury, graveyard, burn fee, averages, payouts,
+/// collected fees, unpaid fees, ...) are either covered by the signature or recomputed by the
+/// validator; a copy of a valid fee-paying peer block with one of them changed (+1, +500) is
+/// offered at every C01 position: if the node adopts it, the conservation oracle -- which reads
+/// treasury, graveyard, unpaid and collected fees from the node's tip -- must still hold.
+fn relayed_header_edits(rep: &mut Report, tier: &Tier) {
+    use super::c01::{attacker_block, positions, Candidate};
+    let ps = match positions(tier) {
+        Ok(p) => p,
+        Err(e) => {
+            rep.machinery(format!("relayed header edits: no positions: {}", e));
+            return;
+        }
+    };
+    let names = [
+        "graveyard", "treasury", "burnfee", "difficulty", "avg_total_fees(dup)", "avg_fee_per_byte", "avg_nolan_rebroadcast_per_block", "previous_block_unpaid", "avg_total_fees", "avg_total_fees_new", "avg_total_fees_atr", "avg_payout_routing", "avg_payout_mining", "avg_payout_treasury", "avg_payout_graveyard", "avg_payout_atr", "total_payout_routing", "total_payout_mining", "total_payout_treasury", "total_payout_graveyard", "total_payout_atr", "total_fees", "total_fees_new", "total_fees_atr", "fee_per_byte", "total_fees_cumulative",
+    ];
+    for p in ps.iter() {
+        let w = &p.w;
+        let g = w.cfg.consensus.genesis_period;
+        let tip = p.tip;
+        let h = w.blocks[tip].id + 1;
+        let ts = w.blocks[tip].ts + 77;
+        let payer = key(1);
+        let Some(s) = w.ledgers[tip].unspent_of(&payer.public).into_iter().find(|s| s.amount > 10_000 && s.block_id + g >= h && s.slip_type == saito_core::core::consensus::slip::SlipType::Normal) else {
+            rep.outcome("header-edits:position-without-a-payer-output");
+            continue;
+        };
+        let tx = make_tx(&[s.clone()], &[(payer.public, s.amount - 777)], &payer, ts, b"fee");
+        let c = Candidate { edit: String::new(), tx, tx2: None, control: true };
+        let raw = match attacker_block(w, tip, &c, false) {
+            Ok(b) => b,
+            Err(e) => {
+                rep.machinery(format!("relayed header edits: fee-paying block unproducible at {}: {}", p.name, e));
+                continue;
+            }
+        };
+        let mut variants: Vec<(String, Vec<u8>)> = vec![("unedited".into(), raw.clone())];
+        for (i, n) in names.iter().enumerate() {
+            for d in [1u64, 500] {
+                let (a, b) = (181 + 8 * i, 189 + 8 * i);
+                let mut x = raw.clone();
+                let v = u64::from_be_bytes(x[a..b].try_into().unwrap()).wrapping_add(d);
+                x[a..b].copy_from_slice(&v.to_be_bytes());
+                variants.push((format!("{}+{}", n, d), x));
+            }
+        }
+        for (label, bytes) in variants {
+            let ctx = json!({"position": p.name, "header_edit": label});
+            rep.evaluations += 1;
+            let Ok(mut node) = w.node_at(tip, key(9)) else {
+                rep.machinery(format!("relayed header edits: no node at {}", p.name));
+                continue;
+            };
+            let before = node.tip().1;
+            rep.transitions += 1;
+            match node.add_block_bytes(&bytes) {
+                Outcome::Done(_) => {}
+                o => {
+                    rep.violate(if o.label().contains("total supply") { "supply-panic/relayed-block-with-edited-header" } else { "abort/relayed-block-with-edited-header" }, format!("{}: {}", ctx, o.label()), ctx.clone());
+                    continue;
+                }
+            }
+            let accepted = node.tip().1 != before;
+            if accepted {
+                let mut l = w.ledgers[tip].clone();
+                l.apply(&decode_block(&bytes));
+                if let Err(e) = supply_check(&node, &l, w.initial_supply, g) {
+                    rep.violate(&format!("supply-mismatch/relayed-block-with-edited-header/{}", label.split('+').next().unwrap_or("")), format!("{}: {}", ctx, e), ctx.clone());
+                    continue;
+                }
+                rep.outcome(if label == "unedited" { "header-edits:control-accepted" } else { "header-edits:edited-block-accepted-and-conserved" });
+            } else if label == "unedited" {
+                rep.machinery(format!("relayed header edits: control refused: {}", ctx));
+            } else {
+                rep.outcome("header-edits:edited-block-refused");
+            }
+            rep.distinct.insert(format!("hdr|{}|{}", p.name, label));
+        }
+    }
+}
+
 /// (5) NFT histories: the C13 producer histories in which an NFT is minted (with and without
 /// change) and, one to three blocks later, its payload is or is not spent on its own, through two
 /// window wraps, with the conservation oracle after every accepted block.
@@ -267,6 +350,7 @@ pub fn main(tier: Tier, _replay: Option<String>) -> i32 {
     sweep(&mut rep);
     adversarial(&mut rep, &tier);
     nft_histories(&mut rep, &tier);
+    relayed_header_edits(&mut rep, &tier);
     // (6) reorganisation attempts that fail part-way
     super::c04::supply_after_failed_reorgs(&mut rep, &tier);
     rep.sample(json!({"script": format!("{:?}", ss[1].rounds), "g": ss[1].g}));
